@@ -311,6 +311,8 @@ def preconditions (c : Case) : Bool :=
    | .struct fs, .struct ivs => wts fs ivs && Spec.inGrammarFs fs
    | _, _ => false) &&
   c.srcs.all Spec.srcOK &&
+  -- app.Context.Bind / BindOnly / MustBind: the sources the handler saw, in bindInternal's order
+  (c.entry != "A" || c.srcs.map (·.kind) == appSourceKinds) &&
   c.tbl.all (fun e => match e.2.f with
     | some (_, _, above, inf32) => !inf32 || above
     | none => true)
@@ -459,7 +461,8 @@ def stepH (id : String) (inp obs : List String) : String :=
   | some c, some o =>
     match c.ty, c.init with
     | .struct fs, .struct ivs =>
-      if !(wts fs ivs && Spec.inGrammarFs fs && c.http.params.all Spec.srcOK && Spec.srcOK c.http.form && tblOK c.tbl) then
+      if !(wts fs ivs && Spec.inGrammarFs fs && c.http.params.all Spec.srcOK && Spec.srcOK c.http.form && tblOK c.tbl &&
+           c.http.params.map (·.kind) == appSourceKinds) then
         s!"{id} bad-case preconditions"
       else
         let P := lookupP c.tbl
